@@ -62,6 +62,13 @@ def baseline(ctx, base, cases, p):
             rec["problems"].append("harness: " + un["error"][:400])
             out.append(rec)
             continue
+        if un.get("guard"):
+            # a request the server refuses: no storage operation, nothing to compare with the model
+            if un["status"] in B.SUCCESS or un["pre_abs"] != un["post_abs"]:
+                rec["problems"].append("guard request answered %s, store %s" % (
+                    un["status"], "changed" if un["pre_abs"] != un["post_abs"] else "unchanged"))
+            out.append(rec)
+            continue
         if un.get("request") is None:
             rec["problems"].append(un.get("derive_error") or "no model request")
             out.append(rec)
